@@ -16,7 +16,13 @@ class CustomBase(BaseException):
     """not an Exception: what KeyboardInterrupt / SystemExit are"""
 
 
-EXC_TYPES = [ValueError, KeyError, CustomError, CustomBase]
+class EndOfTable(StopIteration):
+    pass
+
+
+# StopIteration: what a component's read raises when it calls next() on an exhausted iterator; iterator-protocol plumbing
+# (iter(callable, sentinel), generators) swallows it
+EXC_TYPES = [ValueError, KeyError, CustomError, CustomBase, StopIteration, EndOfTable]
 TMP = os.path.join(lib.SCRATCH, "tmp_c17")
 
 
